@@ -77,9 +77,10 @@ std::map<std::string, TypeOps> make_type_ops() {
 
 // ---------------------------------------------------------------- in-memory FILE*
 struct MemFile { std::string data; size_t rpos = 0; long fail_at = -1; long written = 0; };
-ssize_t mem_read(void* c, char* buf, size_t n) { MemFile* m = (MemFile*) c; size_t k = std::min(n, m->data.size() - m->rpos); if (k > 7) k = 7 + (m->rpos % 23);   // short reads
+// (the stream callbacks are harness code running inside the call: they must not consume or suffer fault positions)
+ssize_t mem_read(void* c, char* buf, size_t n) { FaultPause fp; MemFile* m = (MemFile*) c; size_t k = std::min(n, m->data.size() - m->rpos); if (k > 7) k = 7 + (m->rpos % 23);   // short reads
   k = std::min(k, m->data.size() - m->rpos); memcpy(buf, m->data.data() + m->rpos, k); m->rpos += k; return (ssize_t) k; }
-ssize_t mem_write(void* c, const char* buf, size_t n) { MemFile* m = (MemFile*) c; if (m->fail_at >= 0 && m->written + (long) n > m->fail_at) { errno = ENOSPC; return 0; }
+ssize_t mem_write(void* c, const char* buf, size_t n) { FaultPause fp; MemFile* m = (MemFile*) c; if (m->fail_at >= 0 && m->written + (long) n > m->fail_at) { errno = ENOSPC; return 0; }
   m->data.append(buf, n); m->written += (long) n; return (ssize_t) n; }
 int mem_close(void*) { return 0; }
 
@@ -109,12 +110,17 @@ struct CallCtx {
   long small() { return mod(5); }
   int small_int() { return (int) (next() % 4); }
   size_t dims(ppl_dimension_type* a) { size_t n = (size_t) mod(4); for (size_t i = 0; i < n; ++i) a[i] = (ppl_dimension_type) mod(maxdim + 1); return n; }
-  void* pick(int type, bool is_const, bool optional) {
-    std::vector<void*>& v = pool[(size_t) type];
+  // `type2`: a second pool the argument may equally come from (ppl_Polyhedron_* accept both C and NNC polyhedra)
+  void* pick(int type, bool is_const, bool optional, int type2 = -1) {
+    std::vector<void*>& v1 = pool[(size_t) type];
+    static const std::vector<void*> none;
+    const std::vector<void*>& v2 = type2 >= 0 ? pool[(size_t) type2] : none;
     long k = next();
-    if (v.empty()) return nullptr;
+    long n = (long) (v1.size() + v2.size());
+    if (n == 0) return nullptr;
     if (optional && (k % 3 == 0)) return nullptr;
-    void* p = v[(size_t) (((k % (long) v.size()) + (long) v.size()) % (long) v.size())];
+    size_t i = (size_t) (((k % n) + n) % n);
+    void* p = i < v1.size() ? v1[i] : v2[i - v1.size()];
     if (is_const) const_used.push_back({ type, p }); else mutable_used.push_back(p);
     return p;
   }
@@ -137,10 +143,20 @@ struct CallCtx {
       const_clones.push_back(it == tops->end() ? nullptr : it->second.clone(cu.second));
     }
   }
+  // The fault is armed around the entry point itself and nothing else: the thunk's own argument preparation
+  // (mpz_init, FILE creation, clones for the const check) is harness code, not code under test.
+  int arm_mode = 0;            // 0: none, 1: count allocations, 2: fail allocation arm_k
+  long arm_k = 0; bool arm_sticky = false;
+  long last_count = 0, last_failed = 0;
+  void arm() { if (arm_mode == 1) fault_arm_count(); else if (arm_mode == 2) fault_arm_alloc(arm_k, arm_sticky); }
+  void disarm() { if (arm_mode) { last_count = g_fault.count; last_failed = g_fault.failed; fault_disarm(); } }
   template <class F> int guard(F f) {
-    try { return f(); }
-    catch (const std::exception& e) { escaped = true; escaped_what = e.what(); return 0; }
-    catch (...) { escaped = true; escaped_what = "non-standard exception"; return 0; }
+    int r = 0;
+    arm();
+    try { r = f(); disarm(); }
+    catch (const std::exception& e) { disarm(); escaped = true; escaped_what = e.what(); }
+    catch (...) { disarm(); escaped = true; escaped_what = "non-standard exception"; }
+    return r;
   }
   static const char* HTN(int t);
   std::string kl(const std::string& extra) const { return "C|" + fname + "|" + (op->fault.empty() ? "-" : op->fault) + (extra.empty() ? "" : "|" + extra); }
@@ -295,7 +311,7 @@ struct CapiHarness : Harness {
   }
 
   Judged do_call(CallCtx& C, const ThunkDesc* t, const Op& op) {
-    C.op = &op; C.cur = 0; C.fname = t->name;
+    C.op = &op; C.cur = 0; C.fname = t->name; C.last_count = 0; C.last_failed = 0;
     int r = t->fn(C);
     return { r, C.skipped };
   }
@@ -344,17 +360,17 @@ struct CapiHarness : Harness {
       // ---- allocation faults: exhaustively informed branches from the exact pre-state
       if (op.fault == "alloc" || op.fault == "allocs") {
         Shared* sh = ctx.sh;
-        bool okc = in_grandchild(ctx, op, "count", [&]() { C.ctx = &ctx; fault_arm_count(); Judged j = do_call(C, t, op); long n = g_fault.count; fault_disarm(); sh->scratch[0] = n; sh->scratch[1] = j.skipped ? 1 : 0; sh->scratch[2] = j.r; });
+        bool okc = in_grandchild(ctx, op, "count", [&]() { C.ctx = &ctx; C.arm_mode = 1; Judged j = do_call(C, t, op); long n = C.last_count; C.arm_mode = 0; sh->scratch[0] = n; sh->scratch[1] = j.skipped ? 1 : 0; sh->scratch[2] = j.r; });
         if (okc && sh->scratch[1] == 0 && sh->scratch[0] > 0) {
           long k = op.fk % sh->scratch[0];
           bool sticky = op.fault == "allocs";
           in_grandchild(ctx, op, "faulted", [&]() {
             C.ctx = &ctx;
             ctx.note("faulted call");
-            fault_arm_alloc(k, sticky);
+            C.arm_mode = 2; C.arm_k = k; C.arm_sticky = sticky; C.last_failed = 0;
             Judged j = do_call(C, t, op);
-            long failed = g_fault.failed;
-            fault_disarm();
+            long failed = C.last_failed;
+            C.arm_mode = 0;
             ctx.stat(failed ? "capi.fault.alloc.fired" : "capi.fault.alloc.not_fired");
             if (failed) {
               ++ctx.faults_fired;
